@@ -19,6 +19,7 @@ import core
 import pkg
 import tables as T
 
+LEVEL = "exploration"
 XML = ("content", "styles", "meta", "settings", "manifest")
 READ_PREFIXES = ("get_", "is_", "search", "iter", "traverse", "as_", "to_", "show_", "has_", "count")
 READ_NAMES = {"match", "text_at", "serialize", "__str__", "__repr__", "xpath", "elements_repeated_sequence", "remove_spans", "remove_links",
